@@ -6,6 +6,7 @@
 //     exec   ga(a: A)            [601]  direct use
 //     exec   gb(b: Option<B>)    [602]  used only inside Option<..>
 //     exec   gv(v: Vec<V>)       [603]  used only inside Vec<..>
+//     exec   gz(z: A)            [607]  A used again after B and V (interleaved)
 //     query  gr() -> R           [604]  used only as a query response
 //     sudo   gw(w: W)            [605]
 //     migrate gm(w: W)           [606]  -> MigrateMsg<W> (a struct message: carries a filtered where-clause)
@@ -154,6 +155,13 @@ pub mod gc {
             Ok(Response::new())
         }
 
+        // A is used AGAIN after B and V (interleaved uses: each parameter must still be listed once)
+        #[sv::msg(exec)]
+        pub fn gz(&self, _ctx: ExecCtx, z: A) -> StdResult<Response> {
+            grec(607, z.n());
+            Ok(Response::new())
+        }
+
         #[sv::msg(query)]
         pub fn gr(&self, _ctx: QueryCtx) -> StdResult<R> {
             grec(604, 0);
@@ -262,6 +270,12 @@ pub mod gn {
         #[sv::msg(exec)]
         pub fn gv(&self, _ctx: ExecCtx, v: Vec<u8>) -> StdResult<Response> {
             grec(603, v.len() as u64 * 1000 + if v.is_empty() { 0 } else { v[0].n() });
+            Ok(Response::new())
+        }
+
+        #[sv::msg(exec)]
+        pub fn gz(&self, _ctx: ExecCtx, z: N64) -> StdResult<Response> {
+            grec(607, z.n());
             Ok(Response::new())
         }
 
